@@ -66,6 +66,11 @@ class FakeFS(object):
                 raise SimOSError(self.faults[("read", k)], "simulated read fault", path)
             if a not in self.files:
                 raise SimOSError(errno.ENOENT, "No such file or directory", path)
+            if ("undecodable", k) in self.faults:
+                # the stored file is not UTF-8 (a latin-1 comment, a UTF-16 export): reading it through
+                # codecs.open(encoding='utf-8') raises exactly this
+                self.fired.append(("undecodable", k, a))
+                return _Undecodable(self.files[a])
             return io.StringIO(self.files[a])
         k = len(self.writes)
         self.writes.append(a)
@@ -77,6 +82,12 @@ class FakeFS(object):
         if posixpath.dirname(a) not in self.dirs:
             raise SimOSError(errno.ENOENT, "No such file or directory", path)
         return _WFile(self, a, k)
+
+
+class _Undecodable(io.StringIO):
+    def _boom(self, *a, **k):
+        raise UnicodeDecodeError("utf-8", b"\xe4", 0, 1, "invalid continuation byte")
+    read = readline = readlines = __next__ = _boom
 
 
 class _WFile(io.StringIO):
